@@ -6,6 +6,22 @@ from .cfg import cfg_of, node_calls, node_exprs
 MUTATING = {"append", "extend", "insert", "pop", "remove", "clear", "update", "setdefault", "add", "discard", "sort", "reverse"}
 
 
+def queue_call_bounds(c):
+    """(block expression, timeout expression) of a queue.Queue put(item, block, timeout) / get(block, timeout) call
+    (None where the argument is not given)"""
+    base = 1 if c.func.attr == "put" else 0
+    if any(isinstance(a, ast.Starred) for a in c.args) or any(k.arg is None for k in c.keywords):
+        raise AnalysisError("queue call with unpacked arguments: %s" % dump(c))
+    blk = c.args[base] if len(c.args) > base else None
+    tmo = c.args[base + 1] if len(c.args) > base + 1 else None
+    for k in c.keywords:
+        if k.arg == "block":
+            blk = k.value
+        elif k.arg == "timeout":
+            tmo = k.value
+    return blk, tmo
+
+
 class ClassLocks(object):
     def __init__(self, prog, ci):
         self.prog = prog
@@ -134,12 +150,13 @@ class ClassLocks(object):
                     ty = "ext:threading.Condition"
                 kind = None
                 if ty == "ext:queue.Queue" and f.attr in ("put", "get"):
-                    blk = c.args[1] if len(c.args) > 1 else None
-                    for k in c.keywords:
-                        if k.arg == "block":
-                            blk = k.value
+                    blk, tmo = queue_call_bounds(c)
                     if blk is None or not (isinstance(blk, ast.Constant) and blk.value is False):
-                        kind = "Queue.%s (blocking)" % f.attr
+                        # put(item, block=True, timeout=None): without a timeout the wait has no bound
+                        if tmo is None or (isinstance(tmo, ast.Constant) and tmo.value is None):
+                            kind = "Queue.%s (blocking, no timeout)" % f.attr
+                        else:
+                            kind = "Queue.%s (blocking)" % f.attr
                 elif ty == "ext:queue.Queue" and f.attr == "join":
                     kind = "Queue.join"
                 elif ty == "ext:threading.Event" and f.attr == "wait":
